@@ -514,6 +514,19 @@ fn gen_update(rng: &mut Rng) -> Vec<u8> {
 }
 
 fn gen_notification(rng: &mut Rng) -> Vec<u8> {
+    // one in five: Cease / Administrative Shutdown or Reset (6/2, 6/4) with a Shutdown Communication (RFC 9003: a
+    // length octet and up to 255 octets of UTF-8) of 0, 1, 127, 128, 129, 200, 255 or a random number of octets; the
+    // embedded NOTIFICATION is reported byte for byte whatever its data says (round-7 seed: `NotificationMessage::parse`,
+    // used only for the NOTIFICATION inside a Peer Down, refused a communication above the 128 octets of RFC 8203)
+    if rng.chance(1, 5) {
+        let k = *rng.pick(&[0usize, 1, 127, 128, 129, 200, 255, 64]);
+        let k = if k == 64 { rng.usize(0, 255) } else { k };
+        let mut v = bgp_header((21 + 1 + k) as u16, 3);
+        v.push(6); v.push(*rng.pick(&[2u8, 4]));
+        v.push(k as u8);
+        v.extend((0..k).map(|i| b'a' + (i % 26) as u8));
+        return v;
+    }
     let n = rng.usize(0, 8);
     let mut v = bgp_header((21 + n) as u16, 3);
     v.push(rng.below(9) as u8); v.push(rng.below(12) as u8);
